@@ -12,6 +12,7 @@ import (
 type StoreSet struct {
 	Consts []constant.Value
 	Top    bool // some stored value is not a compile-time constant
+	Plain  bool // some store is not of the "only when the precision is 0" kind (meaningful for prec)
 }
 
 func (s *StoreSet) addConst(c constant.Value) bool {
@@ -65,6 +66,10 @@ func (m *Model) computeStoreSets() {
 									continue
 								}
 								ss := get(fn, k, fa.Field)
+								if !(fa.Field == m.F.Prec && m.IsGuard0Store(in)) && !ss.Plain {
+									ss.Plain = true
+									changed = true
+								}
 								if c, ok := in.Val.(*ssa.Const); ok && c.Value != nil {
 									if ss.addConst(c.Value) {
 										changed = true
@@ -79,8 +84,8 @@ func (m *Model) computeStoreSets() {
 							for k := range fn.Params {
 								if r.MayBeParam(k) {
 									for f := 0; f < nf; f++ {
-										if ss := get(fn, k, f); !ss.Top {
-											ss.Top = true
+										if ss := get(fn, k, f); !ss.Top || !ss.Plain {
+											ss.Top, ss.Plain = true, true
 											changed = true
 										}
 									}
@@ -114,8 +119,8 @@ func (m *Model) computeStoreSets() {
 								}
 								if allTop {
 									for f := 0; f < nf; f++ {
-										if ss := get(fn, k, f); !ss.Top {
-											ss.Top = true
+										if ss := get(fn, k, f); !ss.Top || !ss.Plain {
+											ss.Top, ss.Plain = true, true
 											changed = true
 										}
 									}
@@ -125,6 +130,10 @@ func (m *Model) computeStoreSets() {
 									ss := get(fn, k, f)
 									if s.Top && !ss.Top {
 										ss.Top = true
+										changed = true
+									}
+									if s.Plain && !ss.Plain {
+										ss.Plain = true
 										changed = true
 									}
 									for _, cv := range s.Consts {
@@ -140,4 +149,94 @@ func (m *Model) computeStoreSets() {
 			}
 		}
 	}
+}
+
+// IsGuard0Store reports whether st assigns x.prec only when x.prec was 0:
+// the store is dominated by the true edge of `x.prec == 0` (or the false edge
+// of `x.prec != 0`) on the same object, or the stored value is
+// φ(entry x.prec, c) selected by such a test (the idiom of (*Decimal).scan).
+func (m *Model) IsGuard0Store(st *ssa.Store) bool {
+	fa, ok := m.DecField(st.Addr)
+	if !ok || fa.Field != m.F.Prec {
+		return false
+	}
+	obj := m.RefOf(fa.X)
+	sameObj := func(v ssa.Value) bool {
+		r := m.RefOf(v)
+		if obj.Unknown || r.Unknown {
+			return false
+		}
+		if obj.Params != 0 && obj.Params == r.Params && !obj.Fresh && !r.Fresh && !obj.Global && !r.Global {
+			return true
+		}
+		if obj.Params == 0 && r.Params == 0 && len(obj.Allocs) == 1 && len(r.Allocs) == 1 && obj.Allocs[0] == r.Allocs[0] {
+			return true
+		}
+		return false
+	}
+	isZeroTest := func(cond ssa.Value) (edge int, ok bool) {
+		bo, isb := cond.(*ssa.BinOp)
+		if !isb || (bo.Op != token.EQL && bo.Op != token.NEQ) {
+			return 0, false
+		}
+		x, y := bo.X, bo.Y
+		if k, isk := ConstInt(x); isk && k == 0 {
+			x, y = y, x
+		}
+		if k, isk := ConstInt(y); !isk || k != 0 {
+			return 0, false
+		}
+		lf, isl := m.LoadOfDecField(x)
+		if !isl || lf.Field != m.F.Prec || !sameObj(lf.X) {
+			return 0, false
+		}
+		if bo.Op == token.EQL {
+			return 0, true
+		}
+		return 1, true
+	}
+	fn := st.Parent()
+	for _, b := range fn.Blocks {
+		if len(b.Instrs) == 0 {
+			continue
+		}
+		ifi, isif := b.Instrs[len(b.Instrs)-1].(*ssa.If)
+		if !isif {
+			continue
+		}
+		if edge, ok := isZeroTest(ifi.Cond); ok && m.EdgeDominates(b, edge, st.Block()) {
+			return true
+		}
+	}
+	// phi idiom
+	if ph, isp := st.Val.(*ssa.Phi); isp {
+		hasLoad := false
+		for i, e := range ph.Edges {
+			if lf, isl := m.LoadOfDecField(e); isl && lf.Field == m.F.Prec && sameObj(lf.X) {
+				hasLoad = true
+				continue
+			}
+			if _, isk := e.(*ssa.Const); isk {
+				// the constant must come in over the zero edge of a test of the loaded precision
+				pred := ph.Block().Preds[i]
+				okEdge := false
+				for _, b := range fn.Blocks {
+					if len(b.Instrs) == 0 {
+						continue
+					}
+					if ifi, isif := b.Instrs[len(b.Instrs)-1].(*ssa.If); isif {
+						if edge, ok := isZeroTest(ifi.Cond); ok && (b.Succs[edge] == pred || (b == pred && b.Succs[edge] == ph.Block())) {
+							okEdge = true
+						}
+					}
+				}
+				if okEdge {
+					continue
+				}
+			}
+			return false
+		}
+		return hasLoad
+	}
+	return false
 }
